@@ -67,7 +67,11 @@ def gen_case(r, shape):
         if sg == "single":
             k = next(iter(leaf.kwargs))
             c = r.pct()
-            if c < 50:
+            if c < 12:
+                # ONE path-looking literal mapping object at two places of the argument
+                m = pathy_literal(r)
+                v = [m, m] if r.coin() else {"x": m, "y": m, "z": 0}
+            elif c < 50:
                 v = special_arg(r)
             elif c < 75:
                 v = [special_arg(r) if r.coin() else G.json_value(r, 0) for _ in range(r.between(1, 3))]
@@ -92,6 +96,9 @@ def gen_case(r, shape):
                 if r.coin():
                     kw = {}  # a single keyword
                 kw[r.choice(["path", "path.first", "Path", "PATH.length", "cfg\\path", "\\path", "\\Path.x", "path.nope"])] = v0
+            elif r.coin(25):
+                m = pathy_literal(r)
+                kw = {"k": m, "l": m}  # one literal mapping object under two keywords
             else:
                 kw[r.choice(list(kw))] = special_arg(r)
             leaf = leaf.replace(kwargs=kw)
